@@ -31,6 +31,12 @@ func checkFoldZero(c *Ctx, rule string) {
 	c.touch(fnKey(settle))
 	c.role("settlement entry", fnKey(settle))
 	s := newSumm(p, 0)
+	// a pure helper computing the score (0 when folded, the published strength otherwise) is read
+	// where it is used
+	s.HelperInline = func(f *ssa.Function) bool {
+		fi := ix.Info[f]
+		return privateHelper(settle, f) && len(findLoops(f)) == 0 && fi != nil && len(fi.Writes) == 0
+	}
 	ok := false
 	var bad []string
 	for _, l := range s.loops(settle) {
@@ -125,6 +131,7 @@ func runC02(c *Ctx) {
 	ix := p.Index()
 	checkFoldZero(c, "fold-zero")
 	checkLayerArith(c, "layer-arith")
+	checkRankGrouping(c)
 
 	// ---- level-membership
 	lu := p.Func("settlement", "LevelInfo", "UpdateScore")
@@ -645,4 +652,79 @@ func (c *Ctx) fullRangeCallsAliased(fn *ssa.Function, collField string, callees 
 		return len(body) > 0, "", body
 	}
 	return false, "no loop over " + collField, nil
+}
+
+// checkRankGrouping: players with equal scores end up in ONE group (that is what makes a tie a
+// tie): a score joins the existing group found by a scan of ALL groups for an equal score, and a
+// new group is made only after that scan found none. The groups are only sorted later, so any
+// search that assumes an order (a binary search) can miss the equal group while scores arrive.
+func checkRankGrouping(c *Ctx) {
+	p := c.P
+	ix := p.Index()
+	const rule = "rank-grouping"
+	var adder *ssa.Function
+	for _, w := range ix.Writers("settlement.Rank.groups") {
+		if w.Signature.Params().Len() >= 1 {
+			adder = w
+		}
+	}
+	if adder == nil {
+		c.undecided(rule, "group-adder", "-", "no function appends to Rank.groups")
+		return
+	}
+	c.touch(fnKey(adder))
+	s := newSumm(p, 0)
+	s.EngineAliases = false
+	s.HelperInline = func(f *ssa.Function) bool { return privateHelper(adder, f) }
+	paths, _ := s.Function(adder)
+	var bad []string
+	var loopEv *Event
+	seen := map[*Loop]bool{}
+	n := 0
+	for _, ps := range paths {
+		for _, e := range ps.Events {
+			if e.Kind == "loop" && !seen[e.Loop] {
+				seen[e.Loop] = true
+				n++
+				loopEv = e
+			}
+		}
+	}
+	if n != 1 {
+		bad = append(bad, fmt.Sprintf("the search for a group with the same score is not one scan over the groups (%d loops)", n))
+	} else {
+		ri := analyseRange(loopEv.Loop)
+		if !ri.Full || !loadsField(ri.Coll, "settlement.Rank.groups") {
+			bad = append(bad, "the scan does not cover all groups")
+		}
+		body, _ := s.LoopBody(loopEv.InFn, loopEv.Loop)
+		nHit := 0
+		for _, bp := range body {
+			eq := false
+			for _, cd := range bp.Conds {
+				if cd.V.K == KAtom && cd.V.At.Op == "eq" && !cd.V.Neg && strings.Contains(cd.V.At.A.String(), ".Score") && strings.Contains(cd.V.At.A.String(), "param:") {
+					eq = true
+				}
+			}
+			if strings.HasPrefix(bp.End, "exit") {
+				if !eq {
+					bad = append(bad, "the scan is left on something other than an equal score: ["+bp.CondString()+"]")
+				} else {
+					nHit++
+				}
+			}
+		}
+		if nHit == 0 {
+			bad = append(bad, "no group with an equal score is ever joined")
+		}
+	}
+	for _, ps := range paths {
+		if len(ps.storesTo("settlement.Rank.groups")) == 0 {
+			continue
+		}
+		if !hasCond(ps, func(v *Val) bool { return v.K == KAtom && v.At.Op == "b" && strings.Contains(v.At.L, "exit→") }) {
+			bad = append(bad, "a new group is made without having scanned the existing ones")
+		}
+	}
+	c.check(len(bad) == 0, rule, fnKey(adder), p.FnPos(adder), "a score joins the group found by a full scan for an equal score, else a new group is made", "players with equal scores can end up in different groups", uniq(bad, 3)...)
 }
